@@ -261,9 +261,11 @@ theorem isSat_ok {cfg : Config} (hc : Covers cfg = true) {s : Stack} {st : St} (
     obtain ⟨s3, e3, g3⟩ := solve_ok hSolve g2.inv none
     refine ⟨{ s3 with pending := true }, by simp [isSat, hps, e1, e2, e3], ?_⟩
     -- the pending pop of the final state undoes the pushed level
+    have hne : s ≠ [] := by obtain ⟨_, _, g0⟩ := h; exact g0.nonempty
     obtain ⟨s4, e4, g4⟩ := popCore_good g3 1 (by
-      have := List.length_pos_of_ne_nil g1.nonempty
-      simp [addItem] at this ⊢)
+      cases s with
+      | nil => exact absurd rfl hne
+      | cons _ _ => simp [addItem])
     refine ⟨s4, ?_, by simpa [addItem] using g4⟩
     have := pending_eta s3 g3.notPending
     simp only [clear, if_true]
